@@ -355,8 +355,10 @@ bool Terminal::Impl::executeRunHistoryCmd(SessionContext *s, const Args &args)
                 is_index_valid = true;
             }
         } else {
-            if (s->history.size() >= static_cast<size_t>(-index)) {
-                s->curr_input = s->history.at(s->history.size() + index);
+            //! 先转成 int64_t 再取反，防止 index 为 INT_MIN 时溢出
+            auto back_index = static_cast<size_t>(-static_cast<int64_t>(index));
+            if (s->history.size() >= back_index) {
+                s->curr_input = s->history.at(s->history.size() - back_index);
                 is_index_valid = true;
             }
         }
@@ -368,6 +370,8 @@ bool Terminal::Impl::executeRunHistoryCmd(SessionContext *s, const Args &args)
             s->wp_conn->send(s->token, "Error: index out of range.\r\n");
     } catch (const invalid_argument &e) {
         s->wp_conn->send(s->token, "Error: parse index fail.\r\n");
+    } catch (const out_of_range &e) {
+        s->wp_conn->send(s->token, "Error: index out of range.\r\n");
     }
 
     return false;
